@@ -217,7 +217,7 @@ func c10Run(r *core.Run) {
 		depth = 4
 		r.SetBudget(10 * time.Minute)
 	}
-	r.Rule = "engine B: BFS over histories of Reg(method,route) and Headers(i,set) applied to a fresh Flame AND, operation by operation, to plain route trees (route.AddRoute / SetHeaderMatcher, no shortcut); after every transition every probe (2 methods+1 unknown x 15 paths x 2 header sets, each served twice) must give the same chosen route, parameters or not-found on both; non-trivial = probe on a state that contains a fully static route (so the shortcut table is populated or was evicted)"
+	r.Rule = fmt.Sprintf("engine B: BFS over histories of Reg(method list,route) and Headers(i,set) applied to a fresh Flame AND, operation by operation, to plain route trees (route.AddRoute / SetHeaderMatcher, no shortcut); after every transition (and, in a second world, between the operations) every probe (2 methods+1 unknown x %d paths x %d header sets, each served twice)", len(c10Paths), len(c10ReqHdrs)) + " must give the same chosen route, parameters or not-found on both; non-trivial = probe on a state that contains a fully static route (so the shortcut table is populated or was evicted)"
 	r.Bounds["depth"] = depth
 	r.Bounds["ops"] = len(ops)
 	r.Bounds["max_registrations"] = c10MaxRegs
